@@ -525,6 +525,17 @@ fn run_script(script: &[&str], n: usize) {
                             let r = hh.as_ref().unwrap().storage_writer(k).force().insert(mkval(k, ver, size));
                             if r.is_some() { "ok".into() } else { "none".into() }
                         }
+                        "sinskeep" => {
+                            // storage writer insert whose returned entry handle the application keeps (until `unkeep`)
+                            let (k, ver, size) = (geti(&kv, "k"), geti(&kv, "ver"), geti_d(&kv, "size", 64) as usize);
+                            match hh.as_ref().unwrap().storage_writer(k).force().insert(mkval(k, ver, size)) {
+                                Some(e) => {
+                                    sh.kept.lock().push(Box::new(e));
+                                    "ok".into()
+                                }
+                                None => "none".into(),
+                            }
+                        }
                         "get" => {
                             let k = geti(&kv, "k");
                             let r = match hh.as_ref().unwrap().get(&k).await {
